@@ -219,9 +219,19 @@ func cmdCheck(args []string) int {
 		a := agg[n]
 		ok := true
 		solverSet := map[string]bool{}
+		anyPathCover, anyReach := false, false
 		for _, o := range a.Instances {
 			a.TimeMS += o.TimeMS
 			solverSet[o.Solver] = true
+			if o.Cover && o.AnyPath {
+				anyPathCover = true
+				if o.Verdict != "unsat" {
+					anyReach = true
+				} else if a.Fail == nil {
+					a.Fail = o
+				}
+				continue
+			}
 			if o.Cover {
 				if o.Verdict == "unsat" {
 					ok = false
@@ -234,6 +244,13 @@ func cmdCheck(args []string) int {
 				if a.Fail == nil || (a.Fail.Verdict != "sat" && o.Verdict == "sat") {
 					a.Fail = o
 				}
+			}
+		}
+		if anyPathCover {
+			if anyReach {
+				a.Fail = nil
+			} else {
+				ok = false
 			}
 		}
 		var ss []string
